@@ -2,7 +2,7 @@
    Statements only; proofs in Proofs/MachineProofs.v, Proofs/ScopeThreadsProofs.v. *)
 From Coq Require Import List String ZArith Bool.
 From GinV Require Import Lib.Out Lib.PyStr Model.SelectorMap Model.Values Model.Gin Model.GinEngine
-                         Proofs.MachineFrame Proofs.MachineProofs.
+                         Proofs.MachineFrame Proofs.MachineProofs Model.ScopeThreads Proofs.ScopeThreadsProofs.
 Import ListNotations.
 Open Scope string_scope.
 Open Scope list_scope.
@@ -43,6 +43,26 @@ Proof. exact run_top_scopes. Qed.
 Theorem C09_call_frame : forall fuel s sel args kw s' r, call fuel s sel args kw = (s', r) -> same_static s s'.
 Proof. exact call_frame. Qed.
 
+(* Thread half.  The scope stack is per thread: for EVERY schedule (any number of threads, any interleaving
+   of enter / exit / observe / scoped-lookup steps) every thread observes exactly what it observes when it
+   runs alone, and ends with the same stack. *)
+Theorem C09_thread_private : forall cfg pi st t,
+  obs_of t (snd (trun cfg st pi)) = obs_of t (snd (trun cfg st (only t pi))) /\
+  stack_of (fst (trun cfg st pi)) t = stack_of (fst (trun cfg st (only t pi))) t.
+Proof. exact C09_thread_private. Qed.
+
+Theorem C09_other_thread_frame : forall cfg st t u x, u <> t ->
+  stack_of (fst (tstep_run cfg st u x)) t = stack_of st t.
+Proof. exact other_thread_frame. Qed.
+
+(* a rejected entry pushes nothing; an accepted entry followed by the exit restores the stack *)
+Theorem C09_enter_exit : forall cfg st t a st1 o1,
+  stack_of st t <> [] -> tstep_run cfg st t (TEnter a) = (st1, o1) ->
+  (o1 = OErr "ValueError" /\ stack_of st1 t = stack_of st t) \/
+  (exists sc, o1 = OL (map OS sc) /\ stack_of st1 t = sc :: stack_of st t /\
+              stack_of (fst (tstep_run cfg st1 t TExit)) t = stack_of st t).
+Proof. exact enter_exit_precise. Qed.
+
 Example C09_nonvacuous :
   let s := run_top 50 init_state
     [OWith (SStr "a") [OWith (SStr "b/c") [OCurScope; OWith (SList ["z"]) [OCurScope; ORaise]; OCurScope]];
@@ -58,3 +78,6 @@ Print Assumptions C09_invalid_scope.
 Print Assumptions C09_restored.
 Print Assumptions C09_restored_history.
 Print Assumptions C09_call_frame.
+Print Assumptions C09_thread_private.
+Print Assumptions C09_other_thread_frame.
+Print Assumptions C09_enter_exit.
